@@ -446,6 +446,8 @@ impl StorageEngine {
                 .knowledge_graphs
                 .get(kg)
                 .ok_or_else(|| StorageError::KnowledgeGraphNotFound(kg.to_string()))?;
+            #[cfg(feature = "verif-hooks")]
+            crate::verif_hooks::before_lock("se.insert.view_check", &|| db.try_read().is_some());
             let db = db.read();
             if db.rule_exists(relation) {
                 return Err(StorageError::Other(format!(
@@ -969,6 +971,8 @@ impl StorageEngine {
             .get(kg)
             .ok_or_else(|| StorageError::KnowledgeGraphNotFound(kg.to_string()))?;
 
+        #[cfg(feature = "verif-hooks")]
+        crate::verif_hooks::before_lock("se.register_rule.kg_write", &|| db.try_write().is_some());
         let mut db = db.write();
         db.register_rule(rule_def)
             .map_err(|e| StorageError::Other(format!("Failed to register rule: {e}")))
@@ -1620,6 +1624,8 @@ impl StorageEngine {
             .get(kg)
             .ok_or_else(|| StorageError::KnowledgeGraphNotFound(kg.to_string()))?;
 
+        #[cfg(feature = "verif-hooks")]
+        crate::verif_hooks::before_lock("se.relation_metadata.kg_read", &|| db.try_read().is_some());
         let db = db.read();
         if let Some(rel_meta) = db.metadata.relations.get(name) {
             let columns = if let Some(schema) = db.schema_catalog.get(name) {
@@ -1888,6 +1894,8 @@ impl StorageEngine {
             .map(|entry| {
                 let name = entry.key();
                 let kg_lock = entry.value();
+                #[cfg(feature = "verif-hooks")]
+                crate::verif_hooks::before_lock("se.save_metadata.kg_read", &|| kg_lock.try_read().is_some());
                 let kg = kg_lock.read();
                 crate::storage::metadata::KnowledgeGraphInfo {
                     name: name.clone(),
